@@ -12,7 +12,7 @@ CIDs, several connections sharing hosts, mixed with TLS.
 import hashlib
 import random
 
-from vlib import corpus, e2e, engine, gen, outparse, quicsynth, runner, scene, tcpcap
+from vlib import corpus, netsynth as ns, e2e, engine, gen, outparse, quicsynth, runner, scene, tcpcap
 
 
 def make_scene(rng):
@@ -42,7 +42,12 @@ def make_scene(rng):
         else:
             flows.append(gen.random_tls_flow(rng, i, ep=ep, nmax=5, min_records=1))
     items = scene.stamp(scene.merge(flows, rng, "random"), rng)
-    return flows, scene.capture(items), scene.keylog_text(flows, rng)
+    keys = scene.keylog_text(flows, rng)
+    LAST_DSB_CAPTURE[0] = ns.pcapng([("dsb", keys)] + [("pkt", it.ts, it.frame) for it in items])       # the same capture with its secrets embedded
+    return flows, scene.capture(items), keys
+
+
+LAST_DSB_CAPTURE = [None]
 
 
 def sha(b):
@@ -140,6 +145,11 @@ def eval_inproc(case, rng):
         argv_a[1] = "{dir}/missing.pcapng"
     elif ends == "no-keylog":
         argv_a[5] = "{dir}/missing.log"
+    if case["i"] % 6 == 3 and not ends:
+        # the very same command twice in one process, the secrets embedded in the capture (no -s): the second export is the first one again
+        files["a.pcapng"] = files["b.pcapng"] = LAST_DSB_CAPTURE[0]
+        argv_a = ["-i", "{dir}/a.pcapng", "-o", "{dir}/outa.pcapng"] + eb
+        argv_b = ["-i", "{dir}/b.pcapng", "-o", "{dir}/outb.pcapng"] + eb
     if case["i"] % 4 == 1:
         argv_a[3] = "{dir}/outb.pcapng"       # both runs write the same output path: the later export replaces the earlier (usually different, often longer) one
     solo = runner.run_tlexport(files, argv_b, outnames=("outb.pcapng",))
